@@ -19,6 +19,16 @@ NA = {
 }
 
 CHECKS = {
+ "C09": dict(
+   engine="E1 lifecycle with crash-restart op",
+   technique="deterministic simulation with crash/restart injection: a shadow sampler is saved to a real .npz, dropped and reloaded at generated points and must stay bit-identical (read-outs and continuation) to a primary that never was; Hypothesis-generated histories with shrinking",
+   text=("Crash-restart is a generated operation placed before any step, around the first adaptation / direction update (check "
+         "intervals randomised 2..100), after many steps and twice in a row. After every op all public read-outs of the restarted "
+         "sampler equal the never-saved one bit for bit (samples, log-probs, lengths, bounds, mode, burn-in estimate); continuation "
+         "is compared sample for sample, so any tuning state lost by save/load surfaces as a divergence; plotting / interval / "
+         "marginal calls that work on the original must work on the reloaded object."),
+   design_ref="DESIGN.md 3.5",
+   note="Trusted: generators are matched between original and reloaded object by attribute path; torn .npz writes are not injected."),
  "C15": dict(
    engine="E1 lifecycle + E2 pool simulation + simulated clock",
    technique="deterministic simulation: advance/take_step histories; real ChainPool on a simulated multiprocessing.Pool under seeded schedules (worker starvation/reuse, stalls, speeds) compared with serial copies; run_for on a simulated clock with slow steps, stalls and forward clock jumps; ParallelTempering.run_for inside the process simulation",
